@@ -100,6 +100,26 @@ def gen_matrix(rng, kind, n):
     rng.shuffle(T)
     return T, n, info
 
+def redblack(rng, n, P):
+    """5-point grid / 1-D chain / upwind convection-diffusion numbered red-black and partitioned so that no rank owns
+       both colours: every strong edge crosses a process boundary"""
+    if rng.random() < 0.4: nx, ny = max(2, n), 1
+    else:
+        nx = rng.randint(2, max(2, int(n ** 0.5) + 1)); ny = max(2, n // nx)
+    n = nx * ny
+    T0 = grid(rng, nx, ny, Fraction(1), False) if rng.random() < 0.6 else \
+        convdiff(rng, nx, ny, Fraction(1), Fraction(1), Fraction(1) if ny > 1 else 0)
+    red = [i for i in range(n) if ((i % nx) + (i // nx)) % 2 == 0]; blk = [i for i in range(n) if ((i % nx) + (i // nx)) % 2 == 1]
+    new = {g: k for k, g in enumerate(red + blk)}
+    T = [(new[i], new[j], v) for (i, j, v) in T0]; rng.shuffle(T)
+    nr = len(red)
+    if P == 1: cuts = None
+    else:
+        inner = sorted(set([nr] + [rng.randint(0, n) for _ in range(P - 2)]))
+        while len(inner) < P - 1: inner = sorted(inner + [rng.choice([0, nr, n])])
+        cuts = [0] + inner + [n]
+    return T, n, cuts
+
 def gen_partition(rng, n, P):
     """first_rows of P contiguous blocks: default, balanced explicit, unbalanced, with 1-row / empty blocks"""
     r = rng.random()
@@ -126,6 +146,9 @@ def gen_cases(ctx, P, count, with_seq):
         if tiny: n = rng.randint(1, 12)
         if tiny and kind in ("grid", "convdiff", "decoupled"): kind = "lap"
         T, n, info = gen_matrix(rng, kind, n)
+        rb_part = None
+        if solver in ("prs", "psa") and rng.random() < 0.07:
+            T, n, rb_part = redblack(rng, rng.choice([P, P + 1, 8, 12, rng.randint(4, 40)]), P); info = "redblack"; tiny = False
         if tiny:
             max_coarse = rng.choice([n, n, n + 1, max(1, n - 1), 50])
         else:
@@ -143,6 +166,7 @@ def gen_cases(ctx, P, count, with_seq):
         tap = -1
         if solver in ("prs", "psa"): tap = rng.choice([-1, -1, 0, 0, 1, 2])
         part = gen_partition(rng, n, P) if solver in ("prs", "psa") else None
+        if info == "redblack": part = rb_part; max_coarse = rng.choice([1, 2, max(1, n // 4)])
         lit = [n, n] + ([0] if part is None else [P] + part + part) + [len(T)]
         for (i, j, v) in T: lit += [i, j, nums.tok_num(v)]
         cid = "p%dc%d" % (P, k)
@@ -219,9 +243,10 @@ def parse_dump(res, seq):
     return D
 
 # ---------------------------------------------------------------- the property evaluated on the dump
-def strength_has_edge(rows, n, theta, kind):
+def strength_has_edge(rows, n, theta, kind, owner=None):
     """exact re-evaluation of raptor's classical / symmetric strength (num_variables = 1): is there an
-       off-diagonal strong entry?  rows: list of dict col -> value (duplicates summed)"""
+       off-diagonal strong entry, and is there one whose two unknowns live on the same rank?
+       rows: list of dict col -> value (duplicates summed)"""
     neg = [False] * n; thr = [F0] * n
     for i in range(n):
         r = rows[i]
@@ -232,12 +257,18 @@ def strength_has_edge(rows, n, theta, kind):
         else:
             scale = min(off + [Fraction(RAND_MAX)])
         thr[i] = scale * theta
+    edge = local = False
     for i in range(n):
         for c, v in rows[i].items():
             if c == i: continue
-            if (neg[i] and v > thr[i]) or (not neg[i] and v < thr[i]): return True
-            if kind == 1 and 0 <= c < n and ((neg[c] and v > thr[c]) or (not neg[c] and v < thr[c])): return True
-    return False
+            strong = (neg[i] and v > thr[i]) or (not neg[i] and v < thr[i])
+            if not strong and kind == 1 and 0 <= c < n:
+                strong = (neg[c] and v > thr[c]) or (not neg[c] and v < thr[c])
+            if strong:
+                edge = True
+                if owner is None or (0 <= c < n and owner[i] == owner[c]): local = True
+        if edge and local: break
+    return edge, local
 
 def to_rows(trip, n):
     rows = [dict() for _ in range(n)]
@@ -343,9 +374,10 @@ def evaluate(c, D):
         cont = cont_cond(mc, ml, n, l + 1)
         b = [sizes, vec, maps, cont]
         # ---- strength graph has an edge (exact re-evaluation; the library's own count must agree)
-        edge = False
+        edge = False; local_edge = True
         if c["nvars"] == 1:
-            mine = strength_has_edge(Arows, n, c["theta"], c["strength"])
+            owner = [r for r, R in enumerate(lv.ranks) for _ in range(R.lrows)]
+            mine, local_edge = strength_has_edge(Arows, n, c["theta"], c["strength"], owner if len(owner) == n else None)
             lib = [R.edges for R in lv.ranks]
             if None not in lib and (sum(lib) > 0) == mine: edge = mine
             else: notes["edge_flag_disagree"] = notes.get("edge_flag_disagree", 0) + 1
@@ -398,7 +430,12 @@ def evaluate(c, D):
             # ---- coarsening_ok
             coa = n2 <= n and (not edge or n2 < n)
             if n2 > n: V.append(("monotone", l, "level %d has %d unknowns, level %d has %d" % (l, n, l + 1, n2)))
-            elif edge and n2 == n: V.append(("strict", l, "level %d has a strength edge but level %d has the same size %d" % (l, l + 1, n)))
+            elif edge and n2 == n:
+                # ParRugeStubenSolver/RS runs the serial RS on the diagonal block only (levels 0-2): classified apart
+                cl = "strict"
+                if c["solver"] == "prs" and c["coarsen"] == 0 and l < 3 and not local_edge: cl = "strict_rs_local"
+                V.append((cl, l, "level %d has a strength edge%s but level %d has the same size %d" % (
+                    l, "" if local_edge else " (none of them on-process)", l + 1, n)))
             b += [pro, gal, coa]
         else:
             if cont: V.append(("stop", l, "coarsest level %d has n=%d > max_coarse=%d and %d levels < max_levels=%d: setup stopped early" % (l, n, mc, nlev, ml)))
@@ -448,7 +485,10 @@ def judge(ctx, c, res, mres):
     if any(lv.ranks[0].grows == c["max_coarse"] for lv in D.levels): ctx.count("level_size_eq_max_coarse")
     if D.levels[-1].ranks[0].grows == 0: ctx.count("empty_coarsest")
     for (cl, l, txt) in V[:6]:
-        ctx.signal("O", "hier:%s:%s" % (cl, c["solver"]), txt, case=c["line"])
+        if cl == "strict_rs_local": ctx.signal("O", "hier:strict:prs:rs_local", txt, case=c["line"])
+        else: ctx.signal("O", "hier:%s:%s" % (cl, c["solver"]), txt, case=c["line"])
+    if c.get("nostop") and not any(cl.startswith("strict") for (cl, l, txt) in V):
+        ctx.count("nostop_level_without_strength_edge")
     c["verdict"] = (not V); c["bits"] = bits; c["mline"] = mline
 
 def judge_model(ctx, c, mres):
